@@ -522,7 +522,9 @@ def rescale_unitary_rule(chk, repo, clause):
             r = nf.unwiden(p.ret)       # an integer image may be promoted to floating point first: same values
             interp = [a for a in r.atoms(deep=False) if is_app(a, 'scipy.ndimage.map_coordinates') and a[2][0] == S('img')] \
                 if isinstance(r, Poly) else []
-            masks = [a for a in r.atoms(deep=False) if is_app(a, 'setitem')] if isinstance(r, Poly) else []
+            masks = [a for a in r.atoms(deep=False) if is_app(a, 'setitem') or
+                     (is_app(a, 'where') and len(a[2]) == 3 and isinstance(a[2][1], Poly) and a[2][1].is_zero())] \
+                if isinstance(r, Poly) else []
             if len(interp) != 1 or len(masks) != 1:
                 ok, det = False, f'result {fmt(r)[:160]}'
                 continue
@@ -530,8 +532,10 @@ def rescale_unitary_rule(chk, repo, clause):
             want = I_ * M_ * (nf.app('sum', S('img')) / nf.app('sum', I_) if unitary is TRUE else 1)
             if r != want:
                 ok, det = False, f'result/(interpolated*mask) = {fmt(r / (I_ * M_))[:160]}'
-            ma = masks[0][2][0].single_atom()
-            if ma is None or not is_app(ma, 'scipy.ndimage.map_coordinates') or ma[2][0] != S('mask'):
+            # the interpolated mask with its round-off floor cut away: m[m < eps] = 0, or the same as a selection
+            mv = masks[0][2][0] if is_app(masks[0], 'setitem') else masks[0][2][2]
+            ma = mv.single_atom() if isinstance(mv, Poly) else None
+            if ma is None or not is_app(ma, 'scipy.ndimage.map_coordinates') or nf.unwiden(ma[2][0]) != S('mask'):
                 ok, det = False, 'the post-mask is not the interpolated mask'
         chk.ob(clause, 'N-identity', f.key, f'real image: interpolated x normalisation x post-mask [{label}]', ok and n > 0, det, f.loc())
 
